@@ -181,6 +181,10 @@ var hC10Table = []struct {
 	{types.FloatKindFP128, "0xL00000000000000010000000000000000", true, "", 2}, {types.FloatKindFP128, "0xLFFFFFFFFFFFFFFFF0000FFFFFFFFFFFF", true, "", 2},
 	{types.FloatKindFP128, "0xL00000000000000000001000000000000", true, "", 2}, {types.FloatKindFP128, "0xLFFFFFFFFFFFFFFFF7FFEFFFFFFFFFFFF", true, "", 2},
 	{types.FloatKindHalf, "0xH0001", true, "", 2}, {types.FloatKindHalf, "0xH03FF", true, "", 2}, {types.FloatKindHalf, "0xH0400", true, "", 2}, {types.FloatKindHalf, "0xHFBFF", true, "", 2},
+	// hexadecimal literals with fewer digits than the documented number (read
+	// by LLVM: LLLexer HexToIntPair / FP80HexToIntPair; accepted by llvm-as 14)
+	{types.FloatKindX86_FP80, "0xK1", false, "", 0}, {types.FloatKindPPC_FP128, "0xM1", false, "0xM00000000000000000000000000000001", 0},
+	{types.FloatKindFP128, "0xL01", false, "0xL00000000000000000000000000000001", 0}, {types.FloatKindHalf, "0xH1", false, "0xH0001", 0}, {types.FloatKindDouble, "0x1", false, "", 0},
 	{types.FloatKindDouble, "0.0", false, "", 0}, {types.FloatKindDouble, "-0.0", false, "", 0}, {types.FloatKindDouble, "1.0", false, "", 0},
 	{types.FloatKindDouble, "1000000.0", false, "", 0}, {types.FloatKindDouble, "1.0e22", false, "", 0}, {types.FloatKindDouble, "5.0e7", false, "", 0},
 	{types.FloatKindDouble, "0.1", false, "", 0}, {types.FloatKindDouble, "-2.5e-3", false, "", 0}, {types.FloatKindDouble, "1.5e300", false, "", 0},
@@ -211,6 +215,9 @@ func VfC10_Table() {
 	}
 	out := c.Ident()
 	vfObserveStr("out", out)
+	// known finding: a ppc_fp128 pair that is not in canonical form (here a low
+	// part without a high part) is re-normalised by the big.Float representation
+	vfKnown("C10.ppc-fp128-noncanonical-pair", row.lit == "0xM1")
 	if row.hex {
 		vfAssert("C10.table.canonical-hex-kept", out == row.lit)
 	}
